@@ -279,6 +279,26 @@ func run(c Case) *harn.Failure {
 				}
 				continue
 			}
+			if l.Kind == "urn" && present && l.Op != "~" {
+				// multi-valued properties: '=' holds if any value equals, '!=' only if all values differ (the documented
+				// any/all semantics); the contact's URNs are known by construction
+				k := propKey(l)
+				anyEq := false
+				for _, u := range c.Contact.URNs {
+					parts := strings.SplitN(u, ":", 2)
+					if k != "urn" && parts[0] != k {
+						continue
+					}
+					path := strings.SplitN(parts[1], "?", 2)[0]
+					if strings.EqualFold(strings.TrimSpace(path), strings.TrimSpace(l.Value)) {
+						anyEq = true
+					}
+				}
+				if res["="] != anyEq || res["!="] != !anyEq {
+					f = harn.Failf("multi-valued-any-all", "leaf %q: '=' -> %v, '!=' -> %v, but the contact's URNs %v contain the value: %v", l.text(), res["="], res["!="], c.Contact.URNs, anyEq)
+					return
+				}
+			}
 			if !present || !single {
 				continue
 			}
